@@ -326,6 +326,9 @@ func (s *Sim) runBody() {
 		for i, d := range cfg.Replay {
 			if cfg.Inject != nil && cfg.Inject.At == i {
 				s.step(cfg.Inject.D)
+				if s.stop != nil {
+					break
+				}
 			}
 			if !s.step(d) {
 				s.skipped++
@@ -335,6 +338,11 @@ func (s *Sim) runBody() {
 			}
 			if s.fatal() {
 				return
+			}
+			if s.stop != nil {
+				// after Stop or the loss of the messaging system the run is driven
+				// to its end by a fair scheduler (finishStopped)
+				break
 			}
 		}
 		if cfg.Inject != nil && cfg.Inject.At >= len(cfg.Replay) {
@@ -360,6 +368,9 @@ func (s *Sim) runBody() {
 			s.step(d)
 			if s.fatal() {
 				return
+			}
+			if s.stop != nil {
+				break
 			}
 			if s.cliBudget <= 0 && s.svcBudget <= 0 && s.httpBudget <= 0 && s.faultBudget <= 0 && s.chance(0.2) {
 				break
